@@ -17,9 +17,9 @@
 //     the right key and the file is searched for the clear seed.
 //   - ImportPrivateKey over an existing destination may be refused (counted; the import is then made into an empty
 //     directory). If it reports success, the destination must load to the imported key.
-//   - Legacy salt-less files are sealed by the harness from the documented derivation. The statement demands that
-//     such a file never yields a wrong signer or a panic; that it LOADS is today's behaviour and only counted
-//     (legacy-file-loads). A legacy file that loads must load to the sealed key, with the sealing passphrase only.
+//   - Legacy salt-less files are sealed by the harness from the documented derivation. The quantifier names files in
+//     the legacy format: such a file is a key saved under a passphrase and must load with it, to the sealed key, and
+//     with that passphrase only (legacy-file-loads).
 //     One legacy file is sealed under 32 zero bytes (the key a wiped buffer holds).
 //   - "protects the key": the key file must not be accessible to group or others (mode & 077 == 0) after create and
 //     after import, and must not contain the clear seed.
@@ -419,12 +419,8 @@ func (d *driver) judgeChain(m *meta, o caseObs, legacyPriv ed25519.PrivateKey) [
 			r.Count("noop_signer_not_built:export_is_not_a_raw_ed25519_key", 1)
 			return nil
 		}
-		if !st.OK && legacyPriv != nil && (name == "load" || name == "export") {
-			// a salt-less legacy file sealed by the harness: the statement demands that it never yields a wrong signer
-			// or a panic; that it still LOADS is today's behaviour, recorded not judged
-			r.Count("legacy_file_rejected:"+name, 1)
-			return nil
-		}
+		// (a salt-less legacy file sealed by the harness is "a key saved under a passphrase" like any other: the
+		// quantifier names files in the legacy format, so it must load with its passphrase - judged below)
 		if !st.OK {
 			clause := map[string]string{"export": "export-is-the-key", "import": "export-import-preserves-key", "load2": "export-import-preserves-key", "export2": "export-import-preserves-key"}[name]
 			if clause == "" {
@@ -463,8 +459,8 @@ func (d *driver) judgeChain(m *meta, o caseObs, legacyPriv ed25519.PrivateKey) [
 	m.b = b0
 	if ld := need("load"); ld != nil {
 		if kind == "legacy" {
-			// loads: then it must be the key that was sealed (judged), the loading itself is recorded
-			r.Count("legacy-file-loads", 1)
+			r.Hit("legacy-file-loads")
+			r.Hit("correct-passphrase-loads-same-key")
 			d.usable(m, ld, pub0, "load after "+kind)
 		} else {
 			r.Hit("correct-passphrase-loads-same-key")
